@@ -360,12 +360,20 @@ func witnesses[K any](p Prop[K]) bool {
 	return ok
 }
 
+var tracePath = os.Getenv("VERIF_TRACE_CASE")
+
 func safeRun[K any](p Prop[K], c K) (r *Result) {
 	defer func() {
 		if rec := recover(); rec != nil {
 			r = Fail("harness panic: %v", rec)
 		}
 	}()
+	if tracePath != "" {
+		// crash attribution (driver re-run after a shard died of a go fatal error): the case about to run is on disk
+		if b, err := json.Marshal(map[string]any{"sub": p.Name, "case": c, "property": C.Property}); err == nil {
+			_ = os.WriteFile(tracePath, b, 0o644)
+		}
+	}
 	r = p.Run(c)
 	if r == nil {
 		r = &Result{}
